@@ -143,7 +143,27 @@ def gen_grid_case(rng):
     grid = [[round(rng.uniform(-400, 600), 2), sign * round(max(0, rng.uniform(-50, 80)), 2)] for _ in range(ln)]
     js["scenario"]["core_standing_time"] = rng.choice([None, {"times": [{"start": [22, 0], "end": [5, 0]}], "no_drive_days": [6]},
                                                        {"times": [{"start": [10, 0], "end": [14, 0]}], "no_drive_days": []}])
-    return {"js": js, "grid": grid, "individual": rng.random() < 0.4, "with_ts": rng.random() < 0.5, "offset": rng.choice([0, 0, 2, -2])}
+    individual = rng.random() < 0.4
+    if rng.random() < 0.3:
+        # directed: mixed fleet in individual mode — slow vehicles at strong stations next to a fast vehicle, high demand
+        individual = True
+        comp = js["components"]
+        base = copy.deepcopy(next(iter(comp["vehicle_types"].values())))
+        slow, fast = rng.choice([3.7, 11]), rng.choice([50, 150])
+        comp["vehicle_types"] = {"vt0": dict(base, name="vt0", charging_curve=[[0, slow], [1, slow]], capacity=rng.choice([50, 300])),
+                                 "vt1": dict(base, name="vt1", charging_curve=[[0, fast], [1, fast]])}
+        vids = list(comp["vehicles"])
+        for k, vid in enumerate(vids):
+            comp["vehicles"][vid]["vehicle_type"] = "vt1" if k == len(vids) - 1 or rng.random() < 0.3 else "vt0"
+        for c_ in comp["charging_stations"].values():
+            c_["max_power"] = rng.choice([150, 150, 22])
+        for e in js["events"]["vehicle_events"]:
+            if e["event_type"] == "arrival":
+                e["update"]["soc_delta"] = -rng.choice([0.6, 0.3])
+                e["update"]["desired_soc"] = 1
+        comp["grid_connectors"][next(iter(comp["grid_connectors"]))]["max_power"] = 630
+        grid = [[r_, sign * abs(rng.uniform(5, 80))] for r_, _ in grid]
+    return {"js": js, "grid": grid, "individual": individual, "with_ts": rng.random() < 0.5, "offset": rng.choice([0, 0, 2, -2])}
 
 
 def run_generate(case):
@@ -234,6 +254,22 @@ class GenUnit(corr.Unit):
                     want = 1 if (cur > 1e-5 or res_ < -1e-5) else 0
                     if int(r[ci["charge"]]) != want:
                         v.append(("C13/charge-flag", "row %d charge flag %s but curtailment %s / residual load %s remain: %s" % (t, r[ci["charge"]], cur, res_, d)))
+            # what remains = what was there + what the schedule draws: (residual - curtailment) moves by exactly the schedule
+            ro, co = float(r[h.index("residual load old [kW]")]), float(r[h.index("curtailment old [kW]")])
+            if abs((res_ - cur) - (ro - co) - sv) > 5e-3:
+                v.append(("C13/grid-balance", "row %d: residual-curtailment moved from %s to %s but the schedule is %s: %s" % (t, ro - co, res_ - cur, sv, d)))
+            if case["individual"]:
+                comp = case["js"]["components"]
+                for k in comp["vehicles"]:
+                    if k in h:
+                        vt = comp["vehicle_types"][comp["vehicles"][k]["vehicle_type"]]
+                        stations = {comp["vehicles"][k].get("connected_charging_station")} | {
+                            e["update"].get("connected_charging_station") for e in case["js"]["events"]["vehicle_events"] if e["vehicle_id"] == k}
+                        cmax = max([comp["charging_stations"][c_]["max_power"] for c_ in stations if c_ in comp["charging_stations"]] + [0])
+                        bound = min(cmax, max(p_ for _, p_ in vt["charging_curve"]))
+                        val = float(r[h.index(k)])
+                        if val > bound + 2e-3 or (val < -2e-3 and not vt.get("v2g")):
+                            v.append(("C13/vehicle-outside-band", "row %d vehicle %s scheduled %s kW, station/vehicle maximum %s: %s" % (t, k, val, bound, d)))
             if t < len(out["back"]):
                 tgt, vs = out["back"][t]
                 if tgt is None or abs(tgt - sv) > 1e-9:
